@@ -545,6 +545,16 @@ class C09(Prop):
                                                  "script u1 cmd:quit dest:me", "script u2 snoop w:saw", "script u1 snoop w:old",
                                                  "step conn:c1", "step conn:c2", "step conn:c3", "step send:c1:spy/",
                                                  "step send:c3:x1/", "step send:c2:spy/", "step send:c3:b/"] + tail3)
+        # a heart_beat removes objects that are still to come in the same round (the one right behind it, the last one,
+        # two at once): the round shrinks with them, nobody beats twice, no destructed object beats
+        mk("hb-removes-later-object", ["mode net"] + ["clone o%d /c09/obj" % i for i in range(1, 5)] + ["script o1 hb dest:o2"] +
+           ["vapply o%d do_ops hb:1" % i for i in range(1, 5)] + ["step tick", "step tick"])
+        mk("hb-removes-last-object", ["mode net"] + ["clone o%d /c09/obj" % i for i in range(1, 5)] +
+           ["script o2 hb dest:o4", "script o3 hb cerr"] + ["vapply o%d do_ops hb:1" % i for i in range(1, 5)] +
+           ["step tick", "step conn:c1 tick"])
+        mk("hb-removes-two-later-objects", ["mode net"] + ["clone o%d /c09/obj" % i for i in range(1, 6)] +
+           ["script o2 hb dest:o5;dest:o3", "script o4 hb err"] + ["vapply o%d do_ops hb:1" % i for i in range(1, 6)] +
+           ["step tick", "step tick"])
         mk("connect-rejected", ["mode net", "script k1 connect rej", "step conn:c1", "step conn:c2", "step send:c2:a/"])
         return B
 
@@ -703,9 +713,16 @@ class C09(Prop):
             if rng.chance(6, 100):
                 refused.add(k)
                 lines.append("script k%d connect %s" % (k, rng.choice(["err", "rej"])))
+        # directed: a heart_beat that removes an object still to come in the same round
+        hb_forced = set()
+        if nobjs >= 2 and rng.chance(25, 100):
+            i = rng.range(1, nobjs - 1)
+            j = rng.range(i + 1, nobjs)
+            lines.append("script o%d hb %s" % (i, rng.choice(["dest:o%d", "ok;dest:o%d", "dest:o%d;err", "cerr;dest:o%d"]) % j))
+            hb_forced = {i, j}
         for i in range(1, nobjs + 1):
-            if rng.chance(75, 100):
-                s = ["hb:1"] if rng.chance(70, 100) else []
+            if rng.chance(75, 100) or i in hb_forced:
+                s = ["hb:1"] if (rng.chance(70, 100) or i in hb_forced) else []
                 for _ in range(rng.below(3)):
                     s.append("co:%d:%s" % (rng.range(1, 6), rng.choice(["p", "q", "r"])))
                 if s:
